@@ -26,8 +26,8 @@ CLAIMED = {
              "bounded scope (all slices start/stop in None,-7..7 x step ±1..3 on n<=6; all rolls, permutations, "
              "stack/concatenate on shapes up to rank 3-4; reshapes C/F up to 24 (quick) / 64 (thorough) elements; "
              "seeded advanced-index/einsum/CSR cases) and compared with NumPy, with the Lean model of the rule and "
-             "with the Lean Spec. Rules without a theorem yet (stack, concatenate, reshape, advanced index, einsum, "
-             "CSR) are covered by the correspondence with NumPy only; stated in evidence.",
+             "with the Lean Spec. Every lowering rule now has a theorem (see Extended)."
+             "",
         design_ref="§5 C02",
         note="Modelled not verified: NumPy itself (reference), pymbolic expression construction (covered by "
              "serialising the real expression), integer-only test data."),
@@ -112,7 +112,7 @@ CLAIMED["C14"] = dict(
          "evaluator; keyword arguments vs user inputs; bound data identity; unsupported constructs must raise NotImplementedError/"
          "UnknownIndexLambdaExpr at generation time, never fail or mis-compute at run time; every function name the target can "
          "emit must exist in the installed NumPy. Partial: NumPy's kernels executed; JAX absent (shared generator + NumPy "
-         "interface only); no Lean model of the whole generator (pygen_sound not proved).",
+         "interface only).",
     design_ref="§5 C14", note="Dropped casts inside promoted binary operations rely on NumPy promoting identically (C03).")
 CLAIMED["C17"] = dict(
     technique="Lean 4 theorems: the modelled name generator is a function of its request sequence + hash-seed sweep of the "
@@ -300,6 +300,51 @@ CLAIMED["C05"] = dict(
 NOT_YET = "check not built yet in this revision (see DESIGN.md §10 build order); not claimed"
 
 ALL = [f"C{n:02d}" for n in range(1, 21)]
+
+
+# what later rounds added (after independent seeded changes, DESIGN §10); appended to the texts above
+EXTENDED = {
+    "C01": "Extended: the public array API function by function vs NumPy's own functions (harness/apitable.py: ~1550 calls incl. "
+           "method forms, mixed-rank matmul, compound expressions, constant-valued array operands) — the graph's value and the "
+           "generated code; special values (NaN/inf/-0.0 stream and function x value-class table); loopy calls with colliding "
+           "callee names; C compile errors of generated code are classified (only loopy-C-target limitations are tolerated). "
+           "Lean: the API construction layer is modelled (binop_sound, where_sound, reduce_sound, full/eye/arange/csr_matmul_sound, "
+           "api_emits_own_name over a table regenerated from the live code).",
+    "C02": "Extended: theorems now also for stack, concatenate, reshape (C and F, total), pad (incl. symbolic axes), einsum "
+           "(lower_einsum_correct), advanced indexing (lower_advindex_correct, partial: segment computation tied by text), binary "
+           "operators with broadcasting, where, reductions over every axis subset, constructors, CSR matmul; each with an exact "
+           "expression-text tie on an exhaustive small scope; basic indices written with an Ellipsis.",
+    "C03": "Extended: exhaustive 1-d slice shapes, exhaustive index forms (ints, slices, index arrays, Ellipsis; 13 563 tuples), "
+           "API-table shapes with boundary constructor arguments.",
+    "C04": "Extended: argument spellings (dtype as class/string/np.dtype, numpy integers of every width): equal, same hash, one key.",
+    "C05": "Extended: reference taken from the graph as built; repeated operands for every multi-operand kind; overlapping views of "
+           "one buffer; hash-colliding distinct nodes; explicit tag conflicts counted as refusals.",
+    "C06": "Extended: shared operand sub-expressions between einsums of one pattern, same-rank broadcasting sums in table and "
+           "generator, several unit axes per operand, unit axis on one occurrence of a repeated index.",
+    "C07": "Extended: ImplStored on inputs; exhaustive chain p -> q(p) -> out(p, q) x tag pairs; Named names shared with PrefixNamed.",
+    "C09": "Extended: the partitioner is modelled in Lean (Partition.lean) and compared field by field with every real partition "
+           "(946/946 agree); partition_wf_partial (GoodProgram p -> WFexec (partitionOf p)), partition_exec_faithful, "
+           "partition_comm_once, partition_deterministic, diagnoses_exact. Not proved: the full WF statement (received names never "
+           "outputs, name uniqueness, round clauses) and number_distributed_tags composed with the model.",
+    "C10": "Extended: differential test of the real scheduler against longest-path levels and the Lean batches on shuffled and cyclic graphs.",
+    "C11": "Extended: access theorems for pad, einsum, advanced indexing (affine parts), binary ops/where, reductions, constructors, CSR; "
+           "symbolic programs with pad/strided slices/concatenate/expand_dims/broadcast_to/multi-index einsums and degenerate symbolic lengths.",
+    "C12": "Extended: keyword arguments written in shuffled order.",
+    "C13": "Extended: nested shared functions (every body once), result de-duplication with sharing, single-edge replacement for every "
+           "kind x edge x transform mapper, ladders through every edge class counted at class level (incl. EqualityComparer, hashing, keys).",
+    "C14": "Extended: scalar-operand forms (Python/typed/negative/inf/nan/-0.0 x 7 operators x both sides), dtype mismatches, C19's "
+           "near-misses through the target, API table vs NumPy's functions, non-lexicographic output keys; a Lean model of the emitter "
+           "(pygen) with a text tie is being added (see evidence for what the build contains).",
+    "C15": "Extended: adversarial name tags (Named/PrefixNamed colliding with inputs, outputs and derived names), Named => exactly that name.",
+    "C16": "Extended: every consumer of the shape-equality decision; degenerate affine spellings; every symbolic kernel also interpreted.",
+    "C17": "Extended: multi-output programs with output-to-output dependencies; fan-in communication with symbolic tags; per-part "
+           "generated code (kernel, source, argument order, bound data) across hash seeds.",
+    "C18": "Extended: wrapped-data sensitivity (sizes around block boundaries x positions x layouts; views of one buffer); argument spellings.",
+    "C19": "Extended: unit-axis shapes for unary/math/reductions, fused-broadcast near-misses, lowered high-level nodes, operands that do not broadcast.",
+    "C20": "Extended: DependencyMapper / SubsetDependencyMapper / InputGatherer / SizeParamGatherer vs the reflective closure on every node kind.",
+}
+for _k, _v in EXTENDED.items():
+    CLAIMED[_k]["text"] = CLAIMED[_k]["text"].rstrip() + " " + _v
 
 
 def main():
